@@ -9,7 +9,7 @@ TESTS=0; TIER=quick
 while [ $# -gt 0 ]; do case "$1" in --tests) TESTS=1; shift;; --tier) TIER="$2"; shift 2;; *) break;; esac; done
 VM="${VM:-/var/tmp/verif-m}"; RM="${RM:-/var/tmp/repo-m}"
 if [ ! -d "$VM" ]; then git -C /verif worktree add -q --detach "$VM" HEAD; fi
-git -C "$VM" checkout -q --detach "$(git -C /verif rev-parse HEAD)"
+git -C "$VM" reset -q --hard; git -C "$VM" checkout -q -f --detach "$(git -C /verif rev-parse HEAD)"
 if [ ! -d "$RM" ]; then git -C /repo worktree add -q --detach "$RM" HEAD; fi
 git -C "$RM" checkout -q -- . ; git -C "$RM" clean -fdq; git -C "$RM" checkout -q --detach "$(git -C /repo rev-parse HEAD)"
 if [ "$PATCH" != "none" ]; then
